@@ -49,6 +49,14 @@ CHECKS = {
             "and average_reward is validated on deterministic table MDPs against the first-done-or-cap episode return.",
             "exact fixed point up to 8 episode ends per trace; evaluation helper decided for deterministic tabular policies.",
             "DESIGN.md section 4 C19"),
+    "C13": ("TLA+ Wrappers/MDP/EnvAPI specs: TLC exhaustive per-wrapper refinement + component and trajectory trace validation",
+            "TLC checks for every stack that one step of the wrapped machine is one step of the machine without its outermost "
+            "wrapper under the declared maps, TimeLimit exactness and exact bound rescaling; every documented wrapper is "
+            "constructed; functional components of real stacks are probed in arbitrary wrapped states; TimeLimit(N) is run along "
+            "enumerated episode histories; the Gymnasium / Gymnax adapters (both directions, and the Gym adapter under the real "
+            "PPO collector) are validated against the adapted environment's specification.",
+            "built-in environments under wrappers are covered by C01/C02 traces; Rescale over unbounded boxes is out of scope.",
+            "DESIGN.md section 4 C13"),
 }
 
 PENDING_REASON = "check not built yet in this round (planned: see DESIGN.md section 4); not claimed until its machinery exists"
